@@ -1243,8 +1243,11 @@ def seq_nth(ft, src, depth=0):
     if depth > 8:
         return None
     x = src
-    while x[0] in ("ref", "deref") or (x[0] == "cast" and x[1] == "PointerCoercion"):
-        x = x[2] if x[0] in ("ref", "cast") else x[1]
+    while x[0] in ("ref", "deref") or (x[0] == "cast" and x[1] == "PointerCoercion") or (x[0] == "payload" and x[1] in ("Ok", "Some")):
+        x = x[2] if x[0] in ("ref", "cast", "payload") else x[1]
+    if x[0] == "call" and isinstance(x[1], str) and len(x[2]) == 1 and x[1].split("::")[-1] in ("collect", "from_iter") and not ("HashSet" in x[1] or "BTreeSet" in x[1]):
+        # a vector collected from a sequence (through Result / Option: the successful case) holds that sequence's items in order
+        return seq_nth(ft, x[2][0], depth + 1)
     if x[0] == "agg" and isinstance(x[2], str) and x[2].startswith("std::ops::Range::") and len(x[3]) == 2:
         a, b = x[3]
         return ("bin", "Add", a, KSYM), ("bin", "Sub", b, a)
